@@ -1,26 +1,42 @@
 /-
   PrtpyProofs.MultiFit122 — towards the `1.22` ratio of multifit (Coffman, Garey, Johnson 1978).
 
-  What is proved here (the unconditional `61/50` theorem is **open**, see the end of the file):
+  The unconditional theorem `multifit_ratio_122` (`61/50 + 2^−it` for every `k`) is **open**.  Proved here:
 
-  * the structure of a counter-example of first-fit-decreasing with capacity `B ≥ T` (`CE`): `k` bins with the
-    structure of a first-fit-decreasing packing, an item `a` (not larger than any packed item) that fits into no
-    bin, although everything fits into `k` bins of capacity `T`:
-      - `ce_large`: `B − T < a` (volume);
-      - `ce_first`: the first bin starts with the largest item `f`; either the first bin can be dropped (it
-        dominates the bin of `f` in the `T`-schedule), leaving a counter-example with `k − 1` bins, or
-        `f + 2a ≤ T`;
-      - `ce_reduce_to_tight`: hence a suffix of the bins is a *tight* counter-example (`Tight`: all items
-        `≤ T − 2a`);
-      - `tight_bin_length`: in a tight counter-example every bin holds more than `c` items whenever
-        `c·(T − 2a) + a ≤ B` (so: at least two items, and at least three if `2T − 3a ≤ B`);
-      - `items_per_bin`: a bin of capacity `T < (c+1)·m` holds at most `c` items `≥ m`;
-      - `ce_band`: **the failing item lies in the band `B − T < a`, and (`4a ≤ T` or `B + 3a < 2T`)**.
-        For `B = 1.22·T` the band is `0.22·T < a < 0.26·T`.
-  * `ffd_fold_fits_of_no_band`, `ffd_fits_of_no_band`: first-fit-decreasing with capacity `B ≥ T` needs at most
-    `k` bins if no item lies in the band;
-  * `ffdFits_122_of_no_band` and `multifit_ratio_122_partial`: the `61/50 + 2^−it` ratio of multifit for inputs
-    without an item strictly between `0.22·OPT` and `0.26·OPT`.
+  A. Ratios of multifit (all through `MaxMin.multifit_ratio_of_ffdFits`):
+     * `multifit_ratio_k`: `(5k − 2)/(4k − 1) + 2^−it` for every `k` — a constant below `5/4` for each fixed `k`
+       (`8/7` for `k = 2`, which is the exact value; `13/11, 6/5, 23/19, 28/23, 11/9, …`; the limit is `5/4`);
+     * `multifit_ratio_11_9_small_k`: `11/9 + 2^−it` for `k ≤ 7`;
+     * `multifit_ratio_122_small_k`: `61/50 + 2^−it` for `k ≤ 6`;
+     * `multifit_ratio_122_partial`: `61/50 + 2^−it` for every `k`, for inputs without an item strictly between
+       `0.22·OPT` and `0.26·OPT`.
+     The corresponding statements about first-fit-decreasing: `ffd_fold_fits_k`, `ffd_fold_fits_122_small_k`,
+     `ffd_fold_fits_of_no_band` (and the `ffd_fits_*`, `ffdFits_*` forms).
+
+  B. The structure of a counter-example of first-fit-decreasing with capacity `B ≥ T` (`CE`: `k` bins with the
+     structure of a first-fit-decreasing packing, an item `a`, not larger than any packed item, that fits into
+     no bin, although everything fits into `k` bins of capacity `T`):
+     * `ce_large`, `ce_volume`: `B − T < a`, sharply `k·(B + 1 − T) ≤ (k − 1)·a`;
+     * `ce_first`: the first bin starts with the largest item `f`; either it can be dropped (it dominates the
+       bin of `f` in the `T`-schedule) or `f + 2a ≤ T`;  `ce_reduce_to_tight`: hence a suffix of the bins is a
+       *tight* counter-example (`Tight`: all items `≤ T − 2a`);
+     * `tight_bin_length`, `tight_two`, `tight_three_le`, `tight_count`, `items_per_bin`: bins of a tight
+       counter-example hold more than `c` items if `c·(T − 2a) + a ≤ B`; at least two; `3a ≤ T`; not
+       (`T < 4a` and `2T − 3a ≤ B`);
+     * `ce_band`: **the failing item lies in the band `B − T < a` and (`4a ≤ T` or `B + 3a < 2T`)**; for
+       `B = 1.22·T`: `0.22·T < a < 0.26·T`  (`ffd_core'`: the band is empty for `B > 5/4·T − 1`).
+
+  C. The full rule of first-fit-decreasing as a static property of the bins (`FFDStrong`: bins sorted; an item
+     of a later bin, together with the items of an earlier bin that are at least as large, exceeds `B`):
+     `ffdStrong_fold` (the loop produces it), `FFDStrong.eraseIdx`, `ffdInv_of_strong`; strong counter-examples
+     `SCE`, `STight`, `sce_reduce_to_tight`, `ffd_overflow_sce` (a failing run yields one).
+
+  D. Domination (Coffman, Garey, Johnson): `ce_dominating_bin`, `ce_drop_of_small_opt_bin`: a bin of a
+     `T`-schedule with at most two items is dominated by a bin of the packing, and dropping that bin leaves a
+     counter-example (value-level tools `packable_replace_head`, `packable_of_dom_single`,
+     `packable_of_dom_pair`).  Irreducible counter-examples (`Irred`, `exists_irred`): `irred_tight`,
+     `irred_opt_bins` (**every bin of every `T`-schedule holds at least three items**), `irred_card`;
+     `ffd_overflow_irred` collects everything for a failing run.
 -/
 import Mathlib.Tactic.Linarith
 import Mathlib.Tactic.Ring
@@ -687,17 +703,379 @@ theorem sce_reduce_to_tight {v : α → Nat} {T B : Nat} (hTB : T ≤ B) {a : α
       exact ⟨k', L2, by omega, hsuf.trans (List.suffix_cons _ _), ht⟩
     · exact ⟨k + 1, _, Nat.le_refl _, List.suffix_refl _, h, fun p hp => by have := hmax p hp; omega⟩
 
+
+/-! ## 4. Bins of the `T`-schedule with at most two items are dominated
+
+In a counter-example every bin `O` of a `T`-schedule with at most two items is dominated by a bin of the packing;
+dropping that bin (and `O`) leaves a counter-example with one bin less.  Hence in an *irreducible* counter-example
+(no bin can be dropped) every bin of every `T`-schedule holds at least three items (Coffman, Garey, Johnson). -/
+
+/-- making an item smaller keeps a schedule feasible -/
+theorem packable_replace_head {T k x x' : Nat} {X : List Nat} (hx : x' ≤ x) (h : Packable T k (x :: X)) :
+    Packable T k (x' :: X) := by
+  obtain ⟨Q, hQk, hQp, hQ⟩ := packable_partition h
+  obtain ⟨g, hg, hxg⟩ := List.mem_flatten.1 ((hQp.mem_iff (a := x)).2 (by simp))
+  have pQ := List.perm_cons_erase hg
+  have pg := List.perm_cons_erase hxg
+  have p1 : (g.erase x ++ (Q.erase g).flatten).Perm X := by
+    have h1 : Q.flatten.Perm (x :: (g.erase x ++ (Q.erase g).flatten)) := by
+      refine pQ.flatten.trans ?_
+      simp only [List.flatten_cons]
+      exact pg.append_right _
+    exact (h1.symm.trans hQp).cons_inv
+  refine partition_packable ((x' :: g.erase x) :: Q.erase g) ?_ ?_ ?_
+  · have := pQ.length_eq; simp only [List.length_cons] at this ⊢; omega
+  · simp only [List.flatten_cons, List.cons_append]
+    exact List.Perm.cons x' p1
+  · intro l hl
+    rcases List.mem_cons.1 hl with rfl | hl
+    · have := hQ g hg; rw [Part.sumL_perm pg] at this; simp only [sumL] at this ⊢; omega
+    · exact hQ l (List.mem_of_mem_erase hl)
+
+/-- delete the part `L` of a schedule except for one value `e`, which is replaced by the smaller `p` -/
+theorem packable_finish {T k e p : Nat} {X L R : List Nat} (h : Packable T k X) (hp : X.Perm (L ++ R))
+    (he : e ∈ L) (hpe : p ≤ e) : Packable T k (p :: R) := by
+  have pL := List.perm_cons_erase he
+  have h1 : Packable T k (e :: (L.erase e ++ R)) := packable_perm (hp.trans (pL.append_right R)) h
+  have h2 := packable_replace_head hpe h1
+  have h3 : Packable T k (L.erase e ++ (p :: R)) := packable_perm List.perm_middle.symm h2
+  exact packable_drop_left h3
+
+theorem dom_rest {L L'' L1 : List Nat} {u w y z : Nat} (hL : L.Perm (u :: w :: L'')) (hyu : y ≤ u)
+    (hzw : z ≤ w) (h1 : L.Perm (z :: L1)) : ∃ e ∈ L1, y ≤ e := by
+  by_cases huz : u = z
+  · subst huz
+    have : (w :: L'').Perm L1 := (hL.symm.trans h1).cons_inv
+    exact ⟨w, this.mem_iff.1 (by simp), by omega⟩
+  · have hu : u ∈ z :: L1 := h1.mem_iff.1 (hL.mem_iff.2 (by simp))
+    rcases List.mem_cons.1 hu with h | h
+    · exact absurd h huz
+    · exact ⟨u, h, hyu⟩
+
+/-- the values `L ++ R` are scheduled as `y :: X`, and `L` holds a value `u ≥ y`: then `R` alone fits into the
+    bins of `X` -/
+theorem packable_of_dom_single {T k y u : Nat} {X L R : List Nat} (h : Packable T k X)
+    (hp : (y :: X).Perm (L ++ R)) (hu : u ∈ L) (hyu : y ≤ u) : Packable T k R := by
+  have hy : y ∈ L ++ R := hp.mem_iff.1 (by simp)
+  rcases List.mem_append.1 hy with hy | hy
+  · have pL := List.perm_cons_erase hy
+    have p1 : X.Perm (L.erase y ++ R) := (hp.trans (pL.append_right R)).cons_inv
+    exact packable_drop_left (packable_perm p1 h)
+  · have pR := List.perm_cons_erase hy
+    have p1 : X.Perm (L ++ R.erase y) :=
+      (hp.trans ((List.Perm.append_left L pR).trans List.perm_middle)).cons_inv
+    exact packable_perm pR.symm (packable_finish h p1 hu hyu)
+
+/-- the values `L ++ R` are scheduled as `y :: z :: X`, and `L` holds two values `u ≥ y`, `w ≥ z`: then `R`
+    alone fits into the bins of `X` -/
+theorem packable_of_dom_pair {T k y z u w : Nat} {X L L'' R : List Nat} (h : Packable T k X)
+    (hp : (y :: z :: X).Perm (L ++ R)) (hL : L.Perm (u :: w :: L'')) (hyu : y ≤ u) (hzw : z ≤ w) :
+    Packable T k R := by
+  have hy : y ∈ L ++ R := hp.mem_iff.1 (by simp)
+  rcases List.mem_append.1 hy with hy | hy
+  · have pL := List.perm_cons_erase hy
+    have p1 : (z :: X).Perm (L.erase y ++ R) := (hp.trans (pL.append_right R)).cons_inv
+    have hz : z ∈ L.erase y ++ R := p1.mem_iff.1 (by simp)
+    rcases List.mem_append.1 hz with hz | hz
+    · have pL1 := List.perm_cons_erase hz
+      have p2 : X.Perm ((L.erase y).erase z ++ R) := (p1.trans (pL1.append_right R)).cons_inv
+      exact packable_drop_left (packable_perm p2 h)
+    · have pR := List.perm_cons_erase hz
+      have p2 : X.Perm (L.erase y ++ R.erase z) :=
+        (p1.trans ((List.Perm.append_left _ pR).trans List.perm_middle)).cons_inv
+      obtain ⟨e, he, hze⟩ := dom_rest (hL.trans (List.Perm.swap w u L'')) hzw hyu pL
+      exact packable_perm pR.symm (packable_finish h p2 he hze)
+  · have pR := List.perm_cons_erase hy
+    have p1 : (z :: X).Perm (L ++ R.erase y) :=
+      (hp.trans ((List.Perm.append_left L pR).trans List.perm_middle)).cons_inv
+    have hz : z ∈ L ++ R.erase y := p1.mem_iff.1 (by simp)
+    rcases List.mem_append.1 hz with hz | hz
+    · have pL := List.perm_cons_erase hz
+      have p2 : X.Perm (L.erase z ++ R.erase y) := (p1.trans (pL.append_right _)).cons_inv
+      obtain ⟨e, he, hye⟩ := dom_rest hL hyu hzw pL
+      exact packable_perm pR.symm (packable_finish h p2 he hye)
+    · have pR1 := List.perm_cons_erase hz
+      have p2 : X.Perm (L ++ (R.erase y).erase z) :=
+        (p1.trans ((List.Perm.append_left L pR1).trans List.perm_middle)).cons_inv
+      have p3 : X.Perm (u :: w :: (L'' ++ (R.erase y).erase z)) := p2.trans (hL.append_right _)
+      have h1 := packable_replace_head hyu (packable_perm p3 h)
+      have h2 := packable_replace_head hzw (packable_perm (List.Perm.swap w y _) h1)
+      have h3 : Packable T k (L'' ++ (y :: z :: (R.erase y).erase z)) := by
+        refine packable_perm ?_ h2
+        refine (List.Perm.swap y z _).trans ?_
+        refine (List.Perm.cons y List.perm_middle.symm).trans ?_
+        exact List.perm_middle.symm
+      have h4 := packable_drop_left h3
+      exact packable_perm ((List.Perm.cons y pR1.symm).trans pR.symm) h4
+
+theorem exists_least {P : Nat → Prop} : ∀ n, P n → ∃ m, P m ∧ ∀ i < m, ¬ P i := by
+  intro n
+  induction n using Nat.strongRecOn with
+  | _ n ih =>
+    intro hn
+    by_cases h : ∃ i < n, P i
+    · obtain ⟨i, hi, hPi⟩ := h
+      exact ih i hi hPi
+    · exact ⟨n, hn, fun i hi hPi => h ⟨i, hi, hPi⟩⟩
+
+/-- all values, split into those of bin `j` and the rest -/
+theorem ce_split {LL : List (List α)} {j : Nat} {l : List α} (hl : LL[j]? = some l) (a : α) (v : α → Nat) :
+    ((LL.flatten ++ [a]).map v).Perm (l.map v ++ ((LL.eraseIdx j).flatten ++ [a]).map v) := by
+  obtain ⟨hj, rfl⟩ := List.getElem?_eq_some_iff.1 hl
+  have p1 := flatten_perm_getElem_eraseIdx LL j hj
+  have e : ((LL[j] ++ (LL.eraseIdx j).flatten) ++ [a]).map v =
+      LL[j].map v ++ ((LL.eraseIdx j).flatten ++ [a]).map v := by simp
+  rw [← e]
+  exact (p1.append_right [a]).map v
+
+/-- dropping bin `j` from a counter-example leaves a counter-example as soon as the rest is feasible -/
+theorem ce_erase {v : α → Nat} {T B k : Nat} {LL : List (List α)} {a : α} (h : CE v T B (k + 1) LL a)
+    {j : Nat} (hj : j < LL.length) (hp : Packable T k (((LL.eraseIdx j).flatten ++ [a]).map v)) :
+    CE v T B k (LL.eraseIdx j) a := by
+  refine ⟨?_, ffdInv_eraseIdx h.inv j, fun l hl => h.nofit l (List.mem_of_mem_eraseIdx hl), ?_, hp⟩
+  · rw [List.length_eraseIdx, if_pos hj, h.len]; rfl
+  · intro p hp'
+    obtain ⟨l, hl, hpl⟩ := List.mem_flatten.1 hp'
+    exact h.amin p (List.mem_flatten.2 ⟨l, List.mem_of_mem_eraseIdx hl, hpl⟩)
+
+/-- every value is at most the first item of some bin -/
+theorem ce_head_ge {v : α → Nat} {T B k : Nat} (hTB : T ≤ B) {LL : List (List α)} {a : α}
+    (h : CE v T B k LL a) {y : Nat} (hy : y ∈ (LL.flatten ++ [a]).map v) :
+    ∃ (j : Nat) (f : α) (tl : List α), LL[j]? = some (f :: tl) ∧ y ≤ v f := by
+  obtain ⟨P, hP, rfl⟩ := List.mem_map.1 hy
+  rcases List.mem_append.1 hP with hP | hP
+  · obtain ⟨l, hl, hPl⟩ := List.mem_flatten.1 hP
+    obtain ⟨j, hj, rfl⟩ := List.mem_iff_getElem.1 hl
+    obtain ⟨f, tl, e, h1, _⟩ := h.inv j j _ P (Nat.le_refl _) (List.getElem?_eq_getElem hj) hPl
+    exact ⟨j, f, tl, e, h1⟩
+  · simp only [List.mem_singleton] at hP; subst hP
+    have hk := h.pos
+    have h0 : 0 < LL.length := by rw [h.len]; exact hk
+    have hnf := h.nofit LL[0] (List.getElem_mem h0)
+    have haT := h.item_le
+    cases hl : LL[0] with
+    | nil => rw [hl] at hnf; simp only [binSum, List.map_nil, sumL] at hnf; omega
+    | cons f tl =>
+      refine ⟨0, f, tl, by rw [List.getElem?_eq_getElem h0, hl], ?_⟩
+      exact h.amin f (List.mem_flatten.2 ⟨LL[0], List.getElem_mem h0, by rw [hl]; simp⟩)
+
+/-- **A dominating bin for a pair.**  If two values `y ≥ z` with `y + z ≤ T` occur among the values of a
+    counter-example, the first bin that holds an item of value `y` or `z` starts with an item `≥ y` and holds a
+    further item `≥ z`. -/
+theorem ce_dominating_bin {v : α → Nat} {T B k : Nat} (hTB : T ≤ B) {LL : List (List α)} {a : α}
+    (h : CE v T B k LL a) {y z : Nat} {X : List Nat} (hzy : z ≤ y) (hsum : y + z ≤ T)
+    (hperm : ((LL.flatten ++ [a]).map v).Perm (y :: z :: X)) :
+    ∃ (j : Nat) (f : α) (tl : List α), LL[j]? = some (f :: tl) ∧ y ≤ v f ∧ ∃ w ∈ tl, z ≤ v w := by
+  have hval : ∀ c : Nat, c ∈ (LL.flatten ++ [a]).map v →
+      c = v a ∨ ∃ (j : Nat) (l : List α) (p : α), LL[j]? = some l ∧ p ∈ l ∧ v p = c := by
+    intro c hc
+    obtain ⟨P, hP, rfl⟩ := List.mem_map.1 hc
+    rcases List.mem_append.1 hP with hP | hP
+    · obtain ⟨l, hl, hPl⟩ := List.mem_flatten.1 hP
+      obtain ⟨j, hj, rfl⟩ := List.mem_iff_getElem.1 hl
+      exact Or.inr ⟨j, _, P, List.getElem?_eq_getElem hj, hPl, rfl⟩
+    · simp only [List.mem_singleton] at hP; subst hP; exact Or.inl rfl
+  by_cases hex : ∃ (j : Nat) (l : List α) (p : α), LL[j]? = some l ∧ p ∈ l ∧ (v p = y ∨ v p = z)
+  · obtain ⟨j0, hj0⟩ := hex
+    obtain ⟨j, ⟨l, p, hl, hpl, hpv⟩, hleast⟩ :=
+      exists_least (P := fun (j : Nat) => ∃ (l : List α) (p : α), LL[j]? = some l ∧ p ∈ l ∧ (v p = y ∨ v p = z)) j0 hj0
+    obtain ⟨f, tl, e, hpf, _⟩ := h.inv j j l p (Nat.le_refl _) hl hpl
+    rw [hl] at e
+    cases e
+    have hfy : y ≤ v f := by
+      rcases hval y (hperm.mem_iff.2 (by simp)) with hya | ⟨j', l', p', hl', hp', hv'⟩
+      · rw [hya]; exact h.amin f (List.mem_flatten.2 ⟨_, List.mem_of_getElem? hl, by simp⟩)
+      · rcases Nat.lt_or_ge j' j with hlt | hge
+        · exact absurd ⟨l', p', hl', hp', Or.inl hv'⟩ (hleast j' hlt)
+        · obtain ⟨f', tl', e', h1, _⟩ := h.inv j j' l' p' hge hl' hp'
+          rw [hl] at e'
+          cases e'
+          omega
+    refine ⟨j, f, tl, hl, hfy, ?_⟩
+    apply Classical.byContradiction
+    intro hno
+    have hno' : ∀ w ∈ tl, v w < z := fun w hw => Nat.lt_of_not_le (fun hle => hno ⟨w, hw, hle⟩)
+    have hfy' : v f = y := by
+      rcases List.mem_cons.1 hpl with hpe | hpt
+      · rw [hpe] at hpv
+        rcases hpv with h1 | h1 <;> omega
+      · have := hno' p hpt
+        rcases hpv with h1 | h1 <;> omega
+    have p2 : ((LL.flatten ++ [a]).map v).Perm
+        (v f :: (tl.map v ++ ((LL.eraseIdx j).flatten ++ [a]).map v)) := ce_split hl a v
+    rw [hfy'] at p2
+    have hz : z ∈ tl.map v ++ ((LL.eraseIdx j).flatten ++ [a]).map v :=
+      ((p2.symm.trans hperm).cons_inv).mem_iff.2 (by simp)
+    rcases List.mem_append.1 hz with hz | hz
+    · obtain ⟨w, hw, hwz⟩ := List.mem_map.1 hz
+      have := hno' w hw
+      omega
+    · obtain ⟨P', hP', hPz⟩ := List.mem_map.1 hz
+      rcases List.mem_append.1 hP' with hP' | hP'
+      · obtain ⟨l', hl', hPl'⟩ := List.mem_flatten.1 hP'
+        obtain ⟨i, hij, hli⟩ := List.mem_eraseIdx_iff_getElem?.1 hl'
+        rcases Nat.lt_or_ge i j with hlt | hge
+        · exact hleast i hlt ⟨l', P', hli, hPl', Or.inr hPz⟩
+        · obtain ⟨f', tl', e', h1, h2⟩ := h.inv j i l' P' hge hli hPl'
+          rw [hl] at e'
+          cases e'
+          obtain ⟨w, hw, hle⟩ := h2 (by omega) (by omega)
+          have := hno' w hw
+          omega
+      · simp only [List.mem_singleton] at hP'
+        subst hP'
+        have hnf := h.nofit (f :: tl) (List.mem_of_getElem? hl)
+        simp only [binSum, List.map_cons, sumL] at hnf
+        have hpos : 0 < binSum v tl := by simp only [binSum]; omega
+        obtain ⟨w, hw⟩ := binSum_pos_exists tl hpos
+        have h1 := hno' w hw
+        have h2 := h.amin w (List.mem_flatten.2 ⟨_, List.mem_of_getElem? hl, by simp [hw]⟩)
+        omega
+  · exfalso
+    have hya : y = v a := by
+      rcases hval y (hperm.mem_iff.2 (by simp)) with hya | ⟨j', l', p', hl', hp', hv'⟩
+      · exact hya
+      · exact absurd ⟨j', l', p', hl', hp', Or.inl hv'⟩ hex
+    have p2 : ((LL.flatten ++ [a]).map v).Perm (v a :: LL.flatten.map v) := by
+      rw [List.map_append]; exact List.perm_append_comm
+    rw [← hya] at p2
+    have hz : z ∈ LL.flatten.map v := ((p2.symm.trans hperm).cons_inv).mem_iff.2 (by simp)
+    obtain ⟨P', hP', hv⟩ := List.mem_map.1 hz
+    obtain ⟨l, hl, hPl⟩ := List.mem_flatten.1 hP'
+    obtain ⟨j, hj, rfl⟩ := List.mem_iff_getElem.1 hl
+    exact hex ⟨j, _, P', List.getElem?_eq_getElem hj, hPl, Or.inr hv⟩
+
+/-- the pair case of `ce_drop_of_small_opt_bin` -/
+theorem ce_drop_pair {v : α → Nat} {T B k : Nat} (hTB : T ≤ B) {LL : List (List α)} {a : α}
+    (h : CE v T B (k + 1) LL a) {y z : Nat} {X : List Nat} (hzy : z ≤ y) (hsum : y + z ≤ T)
+    (hX : Packable T k X) (hperm : ((LL.flatten ++ [a]).map v).Perm (y :: z :: X)) :
+    ∃ j, j < LL.length ∧ CE v T B k (LL.eraseIdx j) a := by
+  obtain ⟨j, f, tl, hl, hfy, w, hw, hzw⟩ := ce_dominating_bin hTB h hzy hsum hperm
+  have hj : j < LL.length := (List.getElem?_eq_some_iff.1 hl).1
+  refine ⟨j, hj, ce_erase h hj ?_⟩
+  obtain ⟨s, t, rfl⟩ := List.append_of_mem hw
+  have hL : ((f :: (s ++ w :: t)).map v).Perm (v f :: v w :: (s.map v ++ t.map v)) := by
+    simp only [List.map_cons, List.map_append]
+    exact List.Perm.cons _ List.perm_middle
+  exact packable_of_dom_pair hX (hperm.symm.trans (ce_split hl a v)) hL hfy hzw
+
+/-- **Dropping a dominated bin.**  If a `T`-schedule of a counter-example (`B ≥ T`) has a bin `O` with at most
+    two values, some bin of the packing can be dropped: the rest is a counter-example with one bin less. -/
+theorem ce_drop_of_small_opt_bin {v : α → Nat} {T B k : Nat} (hTB : T ≤ B) {LL : List (List α)} {a : α}
+    (h : CE v T B (k + 1) LL a) (Q : List (List Nat)) (hQk : Q.length = k + 1)
+    (hQp : Q.flatten.Perm ((LL.flatten ++ [a]).map v)) (hQ : ∀ l ∈ Q, sumL l ≤ T) {O : List Nat}
+    (hO : O ∈ Q) (hlen : O.length ≤ 2) : ∃ j, j < LL.length ∧ CE v T B k (LL.eraseIdx j) a := by
+  have pQ := List.perm_cons_erase hO
+  have hX : Packable T k (Q.erase O).flatten := by
+    refine partition_packable (Q.erase O) ?_ (List.Perm.refl _) (fun l hl => hQ l (List.mem_of_mem_erase hl))
+    have := pQ.length_eq; simp only [List.length_cons] at this; omega
+  have hOX : ((LL.flatten ++ [a]).map v).Perm (O ++ (Q.erase O).flatten) := by
+    refine hQp.symm.trans ?_
+    have := pQ.flatten
+    simpa only [List.flatten_cons] using this
+  match O, hlen, hOX with
+  | [], _, hOX =>
+    have h0 : 0 < LL.length := by rw [h.len]; omega
+    refine ⟨0, h0, ce_erase h h0 ?_⟩
+    have p1 := hOX.symm.trans (ce_split (List.getElem?_eq_getElem h0) a v)
+    exact packable_drop_left (packable_perm p1 hX)
+  | [y], _, hOX =>
+    obtain ⟨j, f, tl, hl, hfy⟩ := ce_head_ge hTB h (y := y) (hOX.mem_iff.2 (by simp))
+    have hj : j < LL.length := (List.getElem?_eq_some_iff.1 hl).1
+    refine ⟨j, hj, ce_erase h hj ?_⟩
+    exact packable_of_dom_single hX (hOX.symm.trans (ce_split hl a v)) (u := v f) (by simp) hfy
+  | [y, z], _, hOX =>
+    have hs : y + z ≤ T := by
+      have := hQ _ hO; simp only [sumL] at this; omega
+    rcases Nat.le_total z y with hzy | hyz
+    · exact ce_drop_pair hTB h hzy hs hX hOX
+    · exact ce_drop_pair hTB h hyz (by omega) hX (hOX.trans (List.Perm.swap z y _))
+  | _ :: _ :: _ :: _, hlen, _ => simp at hlen
+
+theorem sce_drop_of_small_opt_bin {v : α → Nat} {T B k : Nat} (hTB : T ≤ B) {LL : List (List α)} {a : α}
+    (h : SCE v T B (k + 1) LL a) (Q : List (List Nat)) (hQk : Q.length = k + 1)
+    (hQp : Q.flatten.Perm ((LL.flatten ++ [a]).map v)) (hQ : ∀ l ∈ Q, sumL l ≤ T) {O : List Nat}
+    (hO : O ∈ Q) (hlen : O.length ≤ 2) : ∃ j, j < LL.length ∧ SCE v T B k (LL.eraseIdx j) a := by
+  obtain ⟨j, hj, hc⟩ := ce_drop_of_small_opt_bin hTB h.toCE Q hQk hQp hQ hO hlen
+  refine ⟨j, hj, hc.len, h.strong.eraseIdx j, ?_, hc.nofit, hc.amin, hc.pack⟩
+  intro p hp
+  obtain ⟨l, hl, hpl⟩ := List.mem_flatten.1 hp
+  exact h.leB p (List.mem_flatten.2 ⟨l, List.mem_of_mem_eraseIdx hl, hpl⟩)
+
+/-! ### Irreducible counter-examples -/
+
+/-- a strong counter-example from which no bin can be dropped -/
+def Irred (v : α → Nat) (T B k : Nat) (LL : List (List α)) (a : α) : Prop :=
+  SCE v T B k LL a ∧ ∀ j, j < LL.length → ¬ SCE v T B (k - 1) (LL.eraseIdx j) a
+
+/-- every strong counter-example contains an irreducible one (some of its bins, in the same order, the same
+    failing item) -/
+theorem exists_irred {v : α → Nat} {T B : Nat} {a : α} : ∀ (k : Nat) (LL : List (List α)),
+    SCE v T B k LL a → ∃ k' LL', k' ≤ k ∧ LL'.Sublist LL ∧ Irred v T B k' LL' a := by
+  intro k
+  induction k with
+  | zero => intro LL h; exact absurd h.toCE.pos (Nat.lt_irrefl _)
+  | succ k ih =>
+    intro LL h
+    by_cases hred : ∃ j, j < LL.length ∧ SCE v T B k (LL.eraseIdx j) a
+    · obtain ⟨j, _, hj⟩ := hred
+      obtain ⟨k', L2, hk', hsub, hi⟩ := ih _ hj
+      exact ⟨k', L2, by omega, hsub.trans (List.eraseIdx_sublist LL j), hi⟩
+    · exact ⟨k + 1, LL, Nat.le_refl _, List.Sublist.refl _, h, fun j hj hs => hred ⟨j, hj, hs⟩⟩
+
+/-- an irreducible counter-example (with `B ≥ T`) is tight -/
+theorem irred_tight {v : α → Nat} {T B k : Nat} (hTB : T ≤ B) {LL : List (List α)} {a : α}
+    (h : Irred v T B k LL a) : STight v T B k LL a := by
+  obtain ⟨hs, hirr⟩ := h
+  cases k with
+  | zero => exact absurd hs.toCE.pos (Nat.lt_irrefl _)
+  | succ k =>
+    obtain ⟨f, tl, LL', rfl, hmax, h1 | h1⟩ := ce_first hTB hs.toCE
+    · exfalso
+      refine hirr 0 (by simp) ?_
+      simp only [Nat.add_sub_cancel, List.eraseIdx_cons_zero]
+      exact ⟨h1.len, hs.strong.tail, fun p hp => hs.leB p (by simp [hp]), h1.nofit, h1.amin, h1.pack⟩
+    · exact ⟨hs, fun p hp => by have := hmax p hp; omega⟩
+
+/-- **Every bin of every `T`-schedule of an irreducible counter-example holds at least three items.** -/
+theorem irred_opt_bins {v : α → Nat} {T B k : Nat} (hTB : T ≤ B) {LL : List (List α)} {a : α}
+    (h : Irred v T B k LL a) (Q : List (List Nat)) (hQk : Q.length = k)
+    (hQp : Q.flatten.Perm ((LL.flatten ++ [a]).map v)) (hQ : ∀ l ∈ Q, sumL l ≤ T) :
+    ∀ O ∈ Q, 3 ≤ O.length := by
+  intro O hO
+  apply Nat.le_of_not_lt
+  intro hlt
+  obtain ⟨hs, hirr⟩ := h
+  cases k with
+  | zero => exact absurd hs.toCE.pos (Nat.lt_irrefl _)
+  | succ k =>
+    obtain ⟨j, hj, hc⟩ := sce_drop_of_small_opt_bin hTB hs Q hQk hQp hQ hO (by omega)
+    exact hirr j hj (by simpa using hc)
+
+/-- an irreducible counter-example with `k` bins has at least `3k` items (the failing item included) -/
+theorem irred_card {v : α → Nat} {T B k : Nat} (hTB : T ≤ B) {LL : List (List α)} {a : α}
+    (h : Irred v T B k LL a) : 3 * k ≤ LL.flatten.length + 1 := by
+  obtain ⟨Q, hQk, hQp, hQ⟩ := packable_partition h.1.pack
+  have h3 := irred_opt_bins hTB h Q hQk hQp hQ
+  have c1 := mul_le_flatten_length 3 Q h3
+  have c3 := hQp.length_eq
+  simp only [List.length_map, List.length_append, List.length_cons, List.length_nil] at c3
+  rw [hQk] at c1
+  omega
+
+/-! ## 5. From a failing run to a counter-example -/
+
 section Overflow
 variable (v : α → Nat)
 
-/-- **From a failing run to a tight strong counter-example.**  If first-fit-decreasing with capacity `B ≥ T`
-    needs more than `k` bins for values that fit into `k` bins of capacity `T`, there are an item `a` of the
-    list and bins `LL` (a suffix of the bins of some prefix of the run) forming a tight strong counter-example;
-    in particular `a` lies in the band. -/
-theorem ffd_overflow_tight {k : Nat} (hk : 0 < k) {T B : Nat} (hTB : T ≤ B) :
+/-- **From a failing run to a strong counter-example.**  If first-fit-decreasing with capacity `B` needs more
+    than `k` bins for values that fit into `k` bins of capacity `T`, then for some prefix `P ++ [a]` of the list
+    the `k` bins packed from `P` and the item `a` form a strong counter-example. -/
+theorem ffd_overflow_sce {k : Nat} (hk : 0 < k) {T B : Nat} :
     ∀ xs : List α, xs.Pairwise (fun a c => v c ≤ v a) → Packable T k (xs.map v) → (∀ x ∈ xs, v x ≤ B) →
       k < (xs.foldl (ffStep v B) (Bins.new 1)).lists.length →
-      ∃ a ∈ xs, ∃ k' LL, k' ≤ k ∧ STight v T B k' LL a := by
+      ∃ (P : List α) (a : α) (S : List α), xs = P ++ a :: S ∧
+        SCE v T B k (P.foldl (ffStep v B) (Bins.new 1)).lists a := by
   intro xs
   induction xs using Oracle.rev_induction with
   | nil => intro _ _ _ h; simp [Bins.new] at h; omega
@@ -707,8 +1085,8 @@ theorem ffd_overflow_tight {k : Nat} (hk : 0 < k) {T B : Nat} (hTB : T ≤ B) :
     have hpP : Packable T k (P.map v) := by rw [List.map_append] at hp; exact packable_prefix _ hp
     have hallP : ∀ y ∈ P, v y ≤ B := fun y hy => hall y (by simp [hy])
     by_cases hP : k < (P.foldl (ffStep v B) (Bins.new 1)).lists.length
-    · obtain ⟨a, ha, r⟩ := ih hS1 hpP hallP hP
-      exact ⟨a, by simp [ha], r⟩
+    · obtain ⟨P', a, S, e, r⟩ := ih hS1 hpP hallP hP
+      exact ⟨P', a, S ++ [x], by rw [e]; simp, r⟩
     · have hinv : Fit.Inv v B P (P.foldl (ffStep v B) (Bins.new 1)) := by
         simpa using Fit.inv_foldl (ffStep v B) (Fit.ffStep_step v B) P [] (Bins.new 1) hallP (Fit.inv_init v B)
       have hI := ffdStrong_fold P hS1 hallP
@@ -719,20 +1097,367 @@ theorem ffd_overflow_tight {k : Nat} (hk : 0 < k) {T B : Nat} (hTB : T ≤ B) :
         simp only [List.length_append, List.length_cons, List.length_nil] at hover
         have hlen : (P.foldl (ffStep v B) (Bins.new 1)).lists.length = k := by omega
         have hc := hinv.cons
-        have hsce : SCE v T B k (P.foldl (ffStep v B) (Bins.new 1)).lists x := by
-          refine ⟨hlen, hI, ?_, ?_, ?_, ?_⟩
-          · intro p hp'; exact hallP p (hinv.perm.mem_iff.1 hp')
-          · intro l hl
-            have hmem : binSum v l ∈ (P.foldl (ffStep v B) (Bins.new 1)).sums := by
-              rw [hc]; exact List.mem_map_of_mem hl
-            have := hno _ hmem
-            omega
-          · intro p hp'
-            exact hS2 p (hinv.perm.mem_iff.1 hp') x (by simp)
-          · exact packable_perm ((hinv.perm.append_right [x]).map v).symm hp
-        obtain ⟨k', LL', hk', _, ht⟩ := sce_reduce_to_tight hTB k _ hsce
-        exact ⟨x, by simp, k', LL', hk', ht⟩
+        refine ⟨P, x, [], rfl, hlen, hI, ?_, ?_, ?_, ?_⟩
+        · intro p hp'; exact hallP p (hinv.perm.mem_iff.1 hp')
+        · intro l hl
+          have hmem : binSum v l ∈ (P.foldl (ffStep v B) (Bins.new 1)).sums := by
+            rw [hc]; exact List.mem_map_of_mem hl
+          have := hno _ hmem
+          omega
+        · intro p hp'
+          exact hS2 p (hinv.perm.mem_iff.1 hp') x (by simp)
+        · exact packable_perm ((hinv.perm.append_right [x]).map v).symm hp
+
+/-- **From a failing run to an irreducible counter-example**: some of the bins of a prefix of the run, and an
+    item `a` of the list, with all the structure proved above: tight, the failing item in the band, every bin of
+    the packing with at least two items, every bin of every `T`-schedule with at least three. -/
+theorem ffd_overflow_irred {k : Nat} (hk : 0 < k) {T B : Nat} (hTB : T ≤ B) {xs : List α}
+    (hS : xs.Pairwise (fun a c => v c ≤ v a)) (hp : Packable T k (xs.map v)) (hall : ∀ x ∈ xs, v x ≤ B)
+    (hover : k < (xs.foldl (ffStep v B) (Bins.new 1)).lists.length) :
+    ∃ a ∈ xs, ∃ k' LL, k' ≤ k ∧ Irred v T B k' LL a ∧ STight v T B k' LL a ∧
+      (B < v a + T ∧ (4 * v a ≤ T ∨ B + 3 * v a < 2 * T)) ∧ 3 * v a ≤ T ∧
+      (∀ l ∈ LL, 2 ≤ l.length) ∧ 3 * k' ≤ LL.flatten.length + 1 := by
+  obtain ⟨P, a, S, e, hs⟩ := ffd_overflow_sce v hk xs hS hp hall hover
+  obtain ⟨k', LL, hk', _, hi⟩ := exists_irred k _ hs
+  have ht := irred_tight hTB hi
+  exact ⟨a, by rw [e]; simp, k', LL, hk', hi, ht, ce_band hTB hi.1.toCE, tight_three_le hTB ht.toTight,
+    tight_two hTB ht.toTight, irred_card hTB hi⟩
 
 end Overflow
 
+/-! ## 6. At most six bins: `61/50` unconditionally -/
+
+/-- **Volume, sharp form**: `k · (B + 1 − T) ≤ (k − 1) · a` -/
+theorem ce_volume {v : α → Nat} {T B k : Nat} {LL : List (List α)} {a : α} (h : CE v T B k LL a) :
+    k * (B + 1) + v a ≤ k * T + k * v a := by
+  have h1 : ∀ s ∈ LL.map (binSum v), B + 1 ≤ s + v a := by
+    intro s hs
+    obtain ⟨l, hl, rfl⟩ := List.mem_map.1 hs
+    have := h.nofit l hl
+    omega
+  have h2 := Part.length_mul_le_sumL _ (B + 1) (v a) h1
+  rw [Fit.sumL_map_binSum] at h2
+  have h3 := packable_sum h.pack
+  rw [List.map_append, Part.sumL_append] at h3
+  simp only [List.length_map, h.len] at h2
+  have e1 : binSum v LL.flatten = sumL (LL.flatten.map v) := rfl
+  simp only [List.map_cons, List.map_nil, sumL] at h3
+  omega
+
+/-- no tight counter-example with at most six bins for a capacity `B > 61/50 · T − 1`: the sharp volume bound
+    gives `a > 6/5 · 0.22 · T = 0.264 · T`, the counting argument `a < 0.26 · T` -/
+theorem tight_small_k {v : α → Nat} {T B k : Nat} (hTB : T ≤ B) (hB : 61 * T < 50 * (B + 1)) (hk : k ≤ 6)
+    {LL : List (List α)} {a : α} (h : Tight v T B k LL a) : False := by
+  have hpos := h.toCE.pos
+  have hvol := ce_volume h.toCE
+  have h3 := tight_three_le hTB h
+  by_cases hc : T < 4 * v a ∧ 2 * T ≤ B + 3 * v a
+  · exact tight_count hTB h hc.1 hc.2
+  · have hk' : k = 1 ∨ k = 2 ∨ k = 3 ∨ k = 4 ∨ k = 5 ∨ k = 6 := by omega
+    rcases hk' with rfl | rfl | rfl | rfl | rfl | rfl <;> omega
+
+section SmallK
+variable (v : α → Nat)
+
+/-- **First-fit-decreasing with capacity above `61/50 · T` fits into `k ≤ 6` bins** whenever the values fit into
+    `k` bins of capacity `T`. -/
+theorem ffd_fold_fits_122_small_k {k : Nat} (hk : 0 < k) (hk6 : k ≤ 6) {T B : Nat} (hTB : T ≤ B)
+    (hB : 61 * T < 50 * (B + 1)) :
+    ∀ xs : List α, xs.Pairwise (fun a c => v c ≤ v a) → Packable T k (xs.map v) → (∀ x ∈ xs, v x ≤ B) →
+      (xs.foldl (ffStep v B) (Bins.new 1)).lists.length ≤ k := by
+  intro xs hS hp hall
+  apply Nat.le_of_not_lt
+  intro hover
+  obtain ⟨P, a, S, _, hs⟩ := ffd_overflow_sce v hk xs hS hp hall hover
+  obtain ⟨k', LL', hk', _, ht⟩ := sce_reduce_to_tight hTB k _ hs
+  exact tight_small_k hTB hB (by omega) ht.toTight
+
+theorem ffd_fits_122_small_k {k : Nat} (hk : 0 < k) (hk6 : k ≤ 6) {xs : List α}
+    (hS : xs.Pairwise (fun a c => v c ≤ v a)) {T : Nat} (hp : Packable T k (xs.map v)) {B : Nat}
+    (hTB : T ≤ B) (hB : 61 * T < 50 * (B + 1)) {b : Bins α} (h : ffOnline v B xs = .ok b) :
+    b.lists.length ≤ k := by
+  simp only [ffOnline, Fit.ffLoop_eq] at h
+  have hall := Fit.gen_ok_all_le h
+  rw [Fit.genLoop_ok v B _ xs _ hall] at h
+  cases h
+  exact ffd_fold_fits_122_small_k v hk hk6 hTB hB xs hS hp hall
+
+/-- `FfdFits ρ` for every `ρ ≥ 61/50` and at most six bins -/
+theorem ffdFits_122_small_k {k : Nat} (hk : 0 < k) (hk6 : k ≤ 6) {items : List α} {opt : Int}
+    (hopt : IsOptimalValue .minLargest k (items.map v) opt) {ρ : Rat} (hρ : 61 / 50 ≤ ρ) :
+    FfdFits v k (sortDesc v items) ρ opt := by
+  obtain ⟨T, rfl, hp⟩ := packable_of_opt hopt
+  have hsp := Part.sortDesc_perm v items
+  have hp' : Packable T k ((sortDesc v items).map v) := packable_perm (hsp.map v).symm hp
+  have hM : ∀ x ∈ sortDesc v items, v x ≤ T :=
+    fun x hx => packable_item_le hp' (List.mem_map_of_mem hx)
+  intro c hc
+  have hT0 : (0 : Rat) ≤ (T : Rat) := by positivity
+  have hc' : 61 / 50 * (T : Rat) ≤ c := by
+    push_cast at hc
+    nlinarith
+  obtain ⟨b', e', _, q2, _⟩ := Part.ffOnline_of_cap v (sortDesc v items) hM c (by linarith)
+  refine ⟨b'.sums.length, by simp only [ffCount, e']; rfl, ?_⟩
+  rw [Part.consistent_length v q2]
+  have hTB : T ≤ floorNat c := Part.le_floorNat T c (by linarith)
+  have hB := Part.lt_floorNat_succ (61 * T) 100 c (by omega) (by push_cast; linarith)
+  exact ffd_fits_122_small_k v hk hk6 (Part.sortDesc_sorted v items) hp' hTB (by omega) e'
+
+/-- **Multifit, `61/50 + 2^−it`, for at most six bins** (unconditional in the input).  For `k ≥ 7` the statement
+    is open, see `multifit_ratio_122_partial`. -/
+theorem multifit_ratio_122_small_k {k : Nat} {items : List α} {it : Nat} {b : Bins α} (hk : 0 < k)
+    (hk6 : k ≤ 6) {opt : Int} (hopt : IsOptimalValue .minLargest k (items.map v) opt)
+    (h : multifit v k items it = .ok b) :
+    ((maxL b.sums : Nat) : Rat) ≤ (61 / 50 + 1 / 2 ^ it) * opt :=
+  multifit_ratio_of_ffdFits v hk hopt (by norm_num) (ffdFits_122_small_k v hk hk6 hopt (le_refl _)) h
+
+end SmallK
+
+/-! ## 6b. Every number of bins: the ratio `(5k − 2)/(4k − 1)`
+
+The same two bounds for `k` bins: the sharp volume bound `a ≥ k/(k−1) · (B + 1 − T)` and the counting bound
+`B + 3a < 2T` are incompatible as soon as `B + 1 > (5k − 2)/(4k − 1) · T`.  The constant is `8/7` for `k = 2` (the
+exact value of Coffman, Garey and Johnson), `11/9` for `k = 7`, and tends to `5/4`. -/
+
+theorem tight_volume_mono {v : α → Nat} {T B k k' : Nat} {LL : List (List α)} {a : α}
+    (h : Tight v T B k' LL a) (hkk : k' ≤ k) : k * (B + 1) + v a ≤ k * T + k * v a := by
+  have hpos := h.toCE.pos
+  have hvol := ce_volume h.toCE
+  obtain ⟨d, rfl⟩ := Nat.exists_eq_add_of_le hkk
+  have hD : B + 1 ≤ T + v a := by
+    apply Nat.le_of_not_lt
+    intro hlt
+    have h0 : T + v a + 1 ≤ B + 1 := by omega
+    have h1 := Nat.mul_le_mul_left k' h0
+    have e1 : k' * (T + v a + 1) = k' * T + k' * v a + k' := by ring
+    omega
+  have h2 := Nat.mul_le_mul_left d hD
+  have e2 : (k' + d) * (B + 1) = k' * (B + 1) + d * (B + 1) := by ring
+  have e3 : (k' + d) * T = k' * T + d * T := by ring
+  have e4 : (k' + d) * v a = k' * v a + d * v a := by ring
+  have e5 : d * (T + v a) = d * T + d * v a := by ring
+  omega
+
+/-- no tight counter-example with at most `k` bins for a capacity `B` with
+    `(5k − 2) · T < (4k − 1) · (B + 1)` -/
+theorem tight_k {v : α → Nat} {T B k k' : Nat} (hTB : T ≤ B) (hk : 0 < k)
+    (hB : 5 * k * T + (B + 1) < 4 * k * (B + 1) + 2 * T) {LL : List (List α)} {a : α}
+    (h : Tight v T B k' LL a) (hkk : k' ≤ k) : False := by
+  have hV := tight_volume_mono h hkk
+  obtain ⟨j, rfl⟩ : ∃ j, k = j + 1 := ⟨k - 1, by omega⟩
+  have e1 : (j + 1) * (B + 1) = j * (B + 1) + (B + 1) := by ring
+  have e2 : (j + 1) * T = j * T + T := by ring
+  have e3 : (j + 1) * v a = j * v a + v a := by ring
+  have e5 : 5 * (j + 1) * T = 5 * (j * T) + 5 * T := by ring
+  have e6 : 4 * (j + 1) * (B + 1) = 4 * (j * (B + 1)) + 4 * (B + 1) := by ring
+  apply tight_count hTB h
+  · apply Nat.lt_of_not_le
+    intro hle
+    have h1 := Nat.mul_le_mul_left j hle
+    have e4 : j * (4 * v a) = 4 * (j * v a) := by ring
+    omega
+  · apply Nat.le_of_not_lt
+    intro hlt
+    have hle : B + 1 + 3 * v a ≤ 2 * T := by omega
+    have h1 := Nat.mul_le_mul_left j hle
+    have e4 : j * (B + 1 + 3 * v a) = j * (B + 1) + 3 * (j * v a) := by ring
+    have e7 : j * (2 * T) = 2 * (j * T) := by ring
+    omega
+
+theorem lt_floorNat_add_one (q : Rat) : q < ((floorNat q : Nat) : Rat) + 1 := by
+  have h1 := Rat.lt_floor_add_one q
+  push_cast at h1
+  have h2 : q.floor ≤ ((floorNat q : Nat) : Int) := by unfold floorNat; omega
+  have h3 : ((q.floor : Int) : Rat) ≤ (((floorNat q : Nat) : Int) : Rat) := by exact_mod_cast h2
+  have h4 : (((floorNat q : Nat) : Int) : Rat) = ((floorNat q : Nat) : Rat) := by norm_cast
+  linarith
+
+section EveryK
+variable (v : α → Nat)
+
+/-- **First-fit-decreasing with capacity above `(5k − 2)/(4k − 1) · T` fits into `k` bins** whenever the values
+    fit into `k` bins of capacity `T`. -/
+theorem ffd_fold_fits_k {k : Nat} (hk : 0 < k) {T B : Nat} (hTB : T ≤ B)
+    (hB : 5 * k * T + (B + 1) < 4 * k * (B + 1) + 2 * T) :
+    ∀ xs : List α, xs.Pairwise (fun a c => v c ≤ v a) → Packable T k (xs.map v) → (∀ x ∈ xs, v x ≤ B) →
+      (xs.foldl (ffStep v B) (Bins.new 1)).lists.length ≤ k := by
+  intro xs hS hp hall
+  apply Nat.le_of_not_lt
+  intro hover
+  obtain ⟨P, a, S, _, hs⟩ := ffd_overflow_sce v hk xs hS hp hall hover
+  obtain ⟨k', LL', hk', _, ht⟩ := sce_reduce_to_tight hTB k _ hs
+  exact tight_k hTB hk hB ht.toTight hk'
+
+theorem ffd_fits_k {k : Nat} (hk : 0 < k) {xs : List α}
+    (hS : xs.Pairwise (fun a c => v c ≤ v a)) {T : Nat} (hp : Packable T k (xs.map v)) {B : Nat}
+    (hTB : T ≤ B) (hB : 5 * k * T + (B + 1) < 4 * k * (B + 1) + 2 * T) {b : Bins α}
+    (h : ffOnline v B xs = .ok b) : b.lists.length ≤ k := by
+  simp only [ffOnline, Fit.ffLoop_eq] at h
+  have hall := Fit.gen_ok_all_le h
+  rw [Fit.genLoop_ok v B _ xs _ hall] at h
+  cases h
+  exact ffd_fold_fits_k v hk hTB hB xs hS hp hall
+
+/-- `FfdFits ρ` for every `ρ ≥ (5k − 2)/(4k − 1)` -/
+theorem ffdFits_k {k : Nat} (hk : 0 < k) {items : List α} {opt : Int}
+    (hopt : IsOptimalValue .minLargest k (items.map v) opt) {ρ : Rat}
+    (hρ : (5 * (k : Rat) - 2) / (4 * (k : Rat) - 1) ≤ ρ) :
+    FfdFits v k (sortDesc v items) ρ opt := by
+  obtain ⟨T, rfl, hp⟩ := packable_of_opt hopt
+  have hsp := Part.sortDesc_perm v items
+  have hp' : Packable T k ((sortDesc v items).map v) := packable_perm (hsp.map v).symm hp
+  have hM : ∀ x ∈ sortDesc v items, v x ≤ T :=
+    fun x hx => packable_item_le hp' (List.mem_map_of_mem hx)
+  intro c hc
+  have hT0 : (0 : Rat) ≤ (T : Rat) := by positivity
+  have hk1 : (1 : Rat) ≤ (k : Rat) := by exact_mod_cast hk
+  have hden : (0 : Rat) < 4 * (k : Rat) - 1 := by linarith
+  have hρ1 : (1 : Rat) ≤ (5 * (k : Rat) - 2) / (4 * (k : Rat) - 1) := by
+    rw [le_div_iff₀ hden]; linarith
+  have hc1 : ρ * (T : Rat) ≤ c := by push_cast at hc; exact hc
+  have hc' : (5 * (k : Rat) - 2) / (4 * (k : Rat) - 1) * (T : Rat) ≤ c :=
+    le_trans (mul_le_mul_of_nonneg_right hρ hT0) hc1
+  have hTc : (T : Rat) ≤ c := by nlinarith
+  obtain ⟨b', e', _, q2, _⟩ := Part.ffOnline_of_cap v (sortDesc v items) hM c hTc
+  refine ⟨b'.sums.length, by simp only [ffCount, e']; rfl, ?_⟩
+  rw [Part.consistent_length v q2]
+  have hTB : T ≤ floorNat c := Part.le_floorNat T c hTc
+  have hlt := lt_floorNat_add_one c
+  have h1 : (5 * (k : Rat) - 2) / (4 * (k : Rat) - 1) * (T : Rat) < ((floorNat c : Nat) : Rat) + 1 :=
+    lt_of_le_of_lt hc' hlt
+  have h2 : (5 * (k : Rat) - 2) * (T : Rat) < (((floorNat c : Nat) : Rat) + 1) * (4 * (k : Rat) - 1) := by
+    have e : (5 * (k : Rat) - 2) / (4 * (k : Rat) - 1) * (T : Rat) =
+        ((5 * (k : Rat) - 2) * (T : Rat)) / (4 * (k : Rat) - 1) := by ring
+    rw [e, div_lt_iff₀ hden] at h1
+    exact h1
+  have hB : 5 * k * T + (floorNat c + 1) < 4 * k * (floorNat c + 1) + 2 * T := by
+    have : ((5 * k * T + (floorNat c + 1) : Nat) : Rat) < ((4 * k * (floorNat c + 1) + 2 * T : Nat) : Rat) := by
+      push_cast; linarith
+    exact_mod_cast this
+  exact ffd_fits_k v hk (Part.sortDesc_sorted v items) hp' hTB hB e'
+
+/-- **Multifit, every `k`: `(5k − 2)/(4k − 1) + 2^−it`.**  The constant is below `5/4` for every `k`
+    (`8/7, 13/11, 6/5, 23/19, 28/23, 11/9, …`). -/
+theorem multifit_ratio_k {k : Nat} {items : List α} {it : Nat} {b : Bins α} (hk : 0 < k) {opt : Int}
+    (hopt : IsOptimalValue .minLargest k (items.map v) opt) (h : multifit v k items it = .ok b) :
+    ((maxL b.sums : Nat) : Rat) ≤ ((5 * (k : Rat) - 2) / (4 * (k : Rat) - 1) + 1 / 2 ^ it) * opt := by
+  have hk1 : (1 : Rat) ≤ (k : Rat) := by exact_mod_cast hk
+  have hden : (0 : Rat) < 4 * (k : Rat) - 1 := by linarith
+  have hρ1 : (1 : Rat) ≤ (5 * (k : Rat) - 2) / (4 * (k : Rat) - 1) := by
+    rw [le_div_iff₀ hden]; linarith
+  exact multifit_ratio_of_ffdFits v hk hopt hρ1 (ffdFits_k v hk hopt (le_refl _)) h
+
+/-- **Multifit, at most seven bins: `11/9 + 2^−it`.** -/
+theorem multifit_ratio_11_9_small_k {k : Nat} {items : List α} {it : Nat} {b : Bins α} (hk : 0 < k)
+    (hk7 : k ≤ 7) {opt : Int} (hopt : IsOptimalValue .minLargest k (items.map v) opt)
+    (h : multifit v k items it = .ok b) :
+    ((maxL b.sums : Nat) : Rat) ≤ (11 / 9 + 1 / 2 ^ it) * opt := by
+  have hk1 : (1 : Rat) ≤ (k : Rat) := by exact_mod_cast hk
+  have hk7' : (k : Rat) ≤ 7 := by exact_mod_cast hk7
+  have hden : (0 : Rat) < 4 * (k : Rat) - 1 := by linarith
+  have hρ : (5 * (k : Rat) - 2) / (4 * (k : Rat) - 1) ≤ 11 / 9 := by
+    rw [div_le_iff₀ hden]; linarith
+  exact multifit_ratio_of_ffdFits v hk hopt (by norm_num) (ffdFits_k v hk hopt hρ) h
+
+end EveryK
+
+/-! ## 7. Non-vacuity -/
+
+/-- a tight strong counter-example: first-fit-decreasing with capacity `7` packs `[3, 3, 2, 2, 2]` into
+    `[3, 3], [2, 2, 2]`, a further item `2` fits nowhere, although `[3, 2, 2], [3, 2, 2]` is a schedule with
+    `T = 7`; the failing item lies in the band (`7 − 7 < 2`, `7 + 3·2 < 2·7`) -/
+theorem stight_example : STight id 7 7 2 [[3, 3], [2, 2, 2]] 2 := by
+  refine ⟨⟨rfl, ?_, by decide, by decide, by decide, ?_⟩, by decide⟩
+  · have := ffdStrong_fold (v := id) (B := 7) [3, 3, 2, 2, 2] (by decide) (by decide)
+    exact this
+  · exact partition_packable [[3, 2, 2], [3, 2, 2]] rfl (by decide) (by decide)
+
+example : 7 < id 2 + 7 ∧ (4 * id 2 ≤ 7 ∨ 7 + 3 * id 2 < 2 * 7) :=
+  ce_band (Nat.le_refl _) stight_example.toSCE.toCE
+
+example : ∀ l ∈ [[3, 3], [2, 2, 2]], 2 ≤ l.length :=
+  tight_two (Nat.le_refl _) stight_example.toTight
+
+/-- the same run, seen from the loop: `[3, 3, 2, 2, 2, 2]` needs three bins of capacity `7` -/
+example : ∃ a ∈ [3, 3, 2, 2, 2, 2], ∃ k' LL, k' ≤ 2 ∧ Irred id 7 7 k' LL a ∧ STight id 7 7 k' LL a ∧
+    (7 < id a + 7 ∧ (4 * id a ≤ 7 ∨ 7 + 3 * id a < 2 * 7)) ∧ 3 * id a ≤ 7 ∧
+    (∀ l ∈ LL, 2 ≤ l.length) ∧ 3 * k' ≤ LL.flatten.length + 1 :=
+  ffd_overflow_irred id (by decide) (Nat.le_refl _) (by decide)
+    (partition_packable [[3, 2, 2], [3, 2, 2]] rfl (by decide) (by decide)) (by decide) (by decide)
+
+/-- capacity `61` for `T = 50` is below `5/4 · 50`, the band is `{12}`: `[20, 20, 15, 15, 15, 15]` (two bins of
+    `50`) has no item in it -/
+example : ([20, 20, 15, 15, 15, 15].foldl (ffStep id 61) (Bins.new 1)).lists.length ≤ 2 :=
+  ffd_fold_fits_of_no_band id (by decide) (T := 50) (by decide) _ (by decide)
+    (partition_packable [[20, 15, 15], [20, 15, 15]] rfl (by decide) (by decide)) (by decide)
+    (by simp [OutOfBand])
+
+/-- `[3, 3, 2, 2, 2]` on two bins, optimal largest sum `6` (`LPT43.opt_33222`): all items are `≥ 0.26 · 6` -/
+example : FfdFits id 2 (sortDesc id [3, 3, 2, 2, 2]) (61 / 50) ((6 : Int) : Rat) :=
+  ffdFits_122_of_no_band id (by decide) opt_33222 (by decide) (le_refl _)
+
+example : ∃ b, multifit id 2 [3, 3, 2, 2, 2] 10 = .ok b ∧
+    ((maxL b.sums : Nat) : Rat) ≤ (61 / 50 + 1 / 2 ^ 10) * ((6 : Int) : Rat) := by
+  obtain ⟨b, h, _⟩ := Part.multifit_perm (v := id) (k := 2) (items := [3, 3, 2, 2, 2]) (it := 10)
+    (by decide) (by decide)
+  exact ⟨b, h, multifit_ratio_122_partial id (by decide) opt_33222 (by decide) h⟩
+
+example : ∃ b, multifit id 2 [3, 3, 2, 2, 2] 10 = .ok b ∧
+    ((maxL b.sums : Nat) : Rat) ≤ (61 / 50 + 1 / 2 ^ 10) * ((6 : Int) : Rat) := by
+  obtain ⟨b, h, _⟩ := Part.multifit_perm (v := id) (k := 2) (items := [3, 3, 2, 2, 2]) (it := 10)
+    (by decide) (by decide)
+  exact ⟨b, h, multifit_ratio_122_small_k id (by decide) (by decide) opt_33222 h⟩
+
+/-- `61 · 50 < 50 · 62`: capacity `61` for `T = 50`, three bins -/
+example : ([30, 25, 25, 20, 20, 15, 15].foldl (ffStep id 61) (Bins.new 1)).lists.length ≤ 3 :=
+  ffd_fold_fits_122_small_k id (by decide) (by decide) (T := 50) (by decide) (by decide) _ (by decide)
+    (partition_packable [[30, 20], [25, 25], [20, 15, 15]] rfl (by decide) (by decide)) (by decide)
+
+/-- dropping a dominated bin: the schedule `[6], [3, 2, 2], [3, 2, 2]` has a bin with one item -/
+example : ∃ j, j < 3 ∧ CE id 7 7 2 (([[6], [3, 3], [2, 2, 2]] : List (List Nat)).eraseIdx j) 2 := by
+  have hs : SCE id 7 7 3 [[6], [3, 3], [2, 2, 2]] 2 := by
+    refine ⟨rfl, ?_, by decide, by decide, by decide, ?_⟩
+    · have := ffdStrong_fold (v := id) (B := 7) [6, 3, 3, 2, 2, 2] (by decide) (by decide)
+      exact this
+    · exact partition_packable [[6], [3, 2, 2], [3, 2, 2]] rfl (by decide) (by decide)
+  exact ce_drop_of_small_opt_bin (Nat.le_refl _) hs.toCE [[6], [3, 2, 2], [3, 2, 2]] rfl (by decide)
+    (by decide) (O := [6]) (by decide) (by decide)
+
+/-- `k = 2`: the ratio `8/7` -/
+example : ∃ b, multifit id 2 [3, 3, 2, 2, 2] 10 = .ok b ∧
+    ((maxL b.sums : Nat) : Rat) ≤ ((5 * ((2 : Nat) : Rat) - 2) / (4 * ((2 : Nat) : Rat) - 1) + 1 / 2 ^ 10) *
+      ((6 : Int) : Rat) := by
+  obtain ⟨b, h, _⟩ := Part.multifit_perm (v := id) (k := 2) (items := [3, 3, 2, 2, 2]) (it := 10)
+    (by decide) (by decide)
+  exact ⟨b, h, multifit_ratio_k id (by decide) opt_33222 h⟩
+
+example : ∃ b, multifit id 2 [3, 3, 2, 2, 2] 10 = .ok b ∧
+    ((maxL b.sums : Nat) : Rat) ≤ (11 / 9 + 1 / 2 ^ 10) * ((6 : Int) : Rat) := by
+  obtain ⟨b, h, _⟩ := Part.multifit_perm (v := id) (k := 2) (items := [3, 3, 2, 2, 2]) (it := 10)
+    (by decide) (by decide)
+  exact ⟨b, h, multifit_ratio_11_9_small_k id (by decide) (by decide) opt_33222 h⟩
+
+/-- `k = 2`, `T = 7`, `B = 8 = 8/7 · 7`: `5·2·7 + 9 = 79 < 4·2·9 + 14 = 86`; with `B = 7` the inequality fails
+    (`78 < 78`), and so does first-fit-decreasing (`stight_example`) -/
+example : ([3, 3, 2, 2, 2, 2].foldl (ffStep id 8) (Bins.new 1)).lists.length ≤ 2 :=
+  ffd_fold_fits_k id (by decide) (T := 7) (by decide) (by decide) _ (by decide)
+    (partition_packable [[3, 2, 2], [3, 2, 2]] rfl (by decide) (by decide)) (by decide)
+
 end Prtpy.MultiFit122
+
+/-
+#print axioms Prtpy.MultiFit122.ce_band
+#print axioms Prtpy.MultiFit122.ffd_fold_fits_of_no_band
+#print axioms Prtpy.MultiFit122.multifit_ratio_122_partial
+#print axioms Prtpy.MultiFit122.multifit_ratio_122_small_k
+#print axioms Prtpy.MultiFit122.ffdStrong_fold
+#print axioms Prtpy.MultiFit122.ce_drop_of_small_opt_bin
+#print axioms Prtpy.MultiFit122.irred_opt_bins
+#print axioms Prtpy.MultiFit122.ffd_overflow_irred
+#print axioms Prtpy.MultiFit122.multifit_ratio_k
+#print axioms Prtpy.MultiFit122.multifit_ratio_11_9_small_k
+#print axioms Prtpy.MultiFit122.stight_example
+
+observed output (each of the eleven):
+'Prtpy.MultiFit122.<name>' depends on axioms: [propext, Classical.choice, Quot.sound]
+-/
